@@ -133,6 +133,10 @@ fn cmp_pair_heap() {
     cmp_pair_of(2);
 }
 
+// (An unbounded delegation harness - stubbing `<str as PartialEq>::eq` / `<str as Ord>::cmp` by
+// recorders - is not possible: Kani's stub resolver takes `core::cmp::PartialEq` / `Ord` for the
+// derive macros of the same name.)
+
 // two handles that point at the SAME bytes with different lengths (a clone truncated while
 // shared; two static strs starting at the same address): equal pointers must not mean equal
 // @harness name=cmp_same_buffer props=C17 class=B bound="two handles on one heap block of capacity 18 / one static object <= 20, texts <= 18 bytes" unwind=22 tier=quick fn=PartialEq,Ord covers=cmp.same_buffer_different_len timeout=1500
